@@ -132,6 +132,16 @@ func (c *Ctx) Forall(vars []*Term, body *Term) *Term {
 	return t
 }
 
+// ForallPat builds a universally quantified formula with explicit instantiation patterns.
+func (c *Ctx) ForallPat(vars []*Term, body *Term, pats ...*Term) *Term {
+	if body.IsTrue() {
+		return body
+	}
+	args := append(append([]*Term{}, vars...), body)
+	args = append(args, pats...)
+	return c.mk(fmt.Sprintf("forallp/%d/%d", len(vars), len(pats)), Bool, args...)
+}
+
 // Fresh returns a new free constant with a unique name.
 func (c *Ctx) Fresh(hint string, s Sort) *Term {
 	c.fresh++
@@ -343,8 +353,89 @@ func (c *Ctx) Ite(cond, a, b *Term) *Term {
 	return c.mk("ite", a.Sort, cond, a, b)
 }
 
-// Op builds a generic application of a built-in operator with result sort s.
-func (c *Ctx) Op(op string, s Sort, args ...*Term) *Term { return c.mk(op, s, args...) }
+// Op builds a generic application of a built-in operator with result sort s. Bit-vector operations on literals are
+// folded, so that loops over constants unroll into straight-line terms.
+func (c *Ctx) Op(op string, s Sort, args ...*Term) *Term {
+	if len(args) == 2 {
+		if a, ok := args[0].BVValue(); ok {
+			if b, ok2 := args[1].BVValue(); ok2 {
+				if t := c.foldBV(op, s, a, b, args[0].Sort.Width()); t != nil {
+					return t
+				}
+			}
+		}
+	}
+	if len(args) == 1 && (op == "bvnot" || op == "bvneg") {
+		if a, ok := args[0].BVValue(); ok {
+			w := s.Width()
+			m := new(big.Int).Lsh(big.NewInt(1), uint(w))
+			if op == "bvnot" {
+				return c.BVLit(new(big.Int).Sub(new(big.Int).Sub(m, big.NewInt(1)), a), w)
+			}
+			return c.BVLit(new(big.Int).Sub(m, a), w)
+		}
+	}
+	if len(args) == 1 && strings.HasPrefix(op, "(_ extract ") {
+		if a, ok := args[0].BVValue(); ok {
+			var hi, lo int
+			fmt.Sscanf(op, "(_ extract %d %d)", &hi, &lo)
+			return c.BVLit(new(big.Int).Rsh(a, uint(lo)), hi-lo+1)
+		}
+	}
+	return c.mk(op, s, args...)
+}
+
+func signedOf(v *big.Int, w int) *big.Int {
+	if v.Bit(w-1) == 1 {
+		return new(big.Int).Sub(v, new(big.Int).Lsh(big.NewInt(1), uint(w)))
+	}
+	return v
+}
+
+func (c *Ctx) foldBV(op string, s Sort, a, b *big.Int, w int) *Term {
+	r := new(big.Int)
+	switch op {
+	case "bvadd":
+		return c.BVLit(r.Add(a, b), w)
+	case "bvsub":
+		return c.BVLit(r.Sub(a, b), w)
+	case "bvmul":
+		return c.BVLit(r.Mul(a, b), w)
+	case "bvand":
+		return c.BVLit(r.And(a, b), w)
+	case "bvor":
+		return c.BVLit(r.Or(a, b), w)
+	case "bvxor":
+		return c.BVLit(r.Xor(a, b), w)
+	case "bvshl":
+		if b.Cmp(big.NewInt(int64(w))) >= 0 {
+			return c.BVLit(big.NewInt(0), w)
+		}
+		return c.BVLit(r.Lsh(a, uint(b.Int64())), w)
+	case "bvlshr":
+		if b.Cmp(big.NewInt(int64(w))) >= 0 {
+			return c.BVLit(big.NewInt(0), w)
+		}
+		return c.BVLit(r.Rsh(a, uint(b.Int64())), w)
+	case "bvult":
+		return c.BoolLit(a.Cmp(b) < 0)
+	case "bvule":
+		return c.BoolLit(a.Cmp(b) <= 0)
+	case "bvugt":
+		return c.BoolLit(a.Cmp(b) > 0)
+	case "bvuge":
+		return c.BoolLit(a.Cmp(b) >= 0)
+	case "bvslt":
+		return c.BoolLit(signedOf(a, w).Cmp(signedOf(b, w)) < 0)
+	case "bvsle":
+		return c.BoolLit(signedOf(a, w).Cmp(signedOf(b, w)) <= 0)
+	case "bvsgt":
+		return c.BoolLit(signedOf(a, w).Cmp(signedOf(b, w)) > 0)
+	case "bvsge":
+		return c.BoolLit(signedOf(a, w).Cmp(signedOf(b, w)) >= 0)
+	}
+	return nil
+}
 
 func (c *Ctx) Select(arr, idx *Term) *Term {
 	is, es := arr.Sort.ArrayParts()
@@ -361,6 +452,10 @@ func (c *Ctx) Select(arr, idx *Term) *Term {
 			continue
 		}
 		break
+	}
+	if arr.Op == "ite" && len(arr.Args) == 3 {
+		// push the read into the branches so that read-over-write and quantifier patterns apply
+		return c.Ite(arr.Args[0], c.Select(arr.Args[1], idx), c.Select(arr.Args[2], idx))
 	}
 	return c.mk("select", es, arr, idx)
 }
@@ -394,6 +489,20 @@ func (c *Ctx) Store(arr, idx, v *Term) *Term {
 
 // Extend sign- or zero-extends a bit-vector to width w (or truncates).
 func (c *Ctx) Extend(t *Term, w int, signed bool) *Term {
+	// extract-of-extend and extend-of-extend of the same kind collapse onto the innermost operand
+	if len(t.Args) == 1 {
+		inner := t.Args[0]
+		if strings.HasPrefix(t.Op, "(_ sign_extend ") && (signed || w <= t.Sort.Width()) && w >= inner.Sort.Width() {
+			return c.Extend(inner, w, true)
+		}
+		if strings.HasPrefix(t.Op, "(_ zero_extend ") && (!signed || w <= t.Sort.Width()) && w >= inner.Sort.Width() {
+			if w > t.Sort.Width() && signed {
+				// zero-extended value is non-negative: sign extension equals zero extension
+				return c.Extend(inner, w, false)
+			}
+			return c.Extend(inner, w, false)
+		}
+	}
 	cw := t.Sort.Width()
 	switch {
 	case cw == w:
@@ -551,6 +660,23 @@ func (c *Ctx) Script(asserts []*Term, extra []string, getModel []*Term) string {
 			return t.Op
 		}
 		var b strings.Builder
+		if strings.HasPrefix(t.Op, "forallp/") {
+			var nv, np int
+			fmt.Sscanf(t.Op, "forallp/%d/%d", &nv, &np)
+			b.WriteString("(forall (")
+			for _, v := range t.Args[:nv] {
+				fmt.Fprintf(&b, "(%s %s)", v.Op, v.Sort)
+			}
+			b.WriteString(") (! ")
+			b.WriteString(render(t.Args[nv]))
+			for _, p := range t.Args[nv+1:] {
+				b.WriteString(" :pattern (")
+				b.WriteString(render(p))
+				b.WriteString(")")
+			}
+			b.WriteString("))")
+			return b.String()
+		}
 		if strings.HasPrefix(t.Op, "forall/") {
 			nv := len(t.Args) - 1
 			b.WriteString("(forall (")
@@ -592,4 +718,36 @@ func (c *Ctx) Script(asserts []*Term, extra []string, getModel []*Term) string {
 		sb.WriteString("))\n")
 	}
 	return sb.String()
+}
+
+// Subst replaces every occurrence of from by to in t (rebuilding the term).
+func (c *Ctx) Subst(t, from, to *Term) *Term {
+	memo := map[int]*Term{}
+	var rec func(x *Term) *Term
+	rec = func(x *Term) *Term {
+		if x == from {
+			return to
+		}
+		if len(x.Args) == 0 {
+			return x
+		}
+		if r, ok := memo[x.id]; ok {
+			return r
+		}
+		changed := false
+		args := make([]*Term, len(x.Args))
+		for i, a := range x.Args {
+			args[i] = rec(a)
+			if args[i] != a {
+				changed = true
+			}
+		}
+		r := x
+		if changed {
+			r = c.mk(x.Op, x.Sort, args...)
+		}
+		memo[x.id] = r
+		return r
+	}
+	return rec(t)
 }
